@@ -17,14 +17,17 @@ from harness import proto, stage
 from harness import gen_lru as G
 from harness import gen_loader as GL
 from harness.framework import Result, pmap
+from harness.proto import Atom, B, N
 
 PROP = 'C15'
 TRUSTED = [
     'modelled, not verified: genshi/util.py LRUCache and genshi/template/loader.py TemplateLoader.load / directory() (hand-written Lean models tied by correspondence)',
     'not modelled: os.path (join/dirname/normpath/isabs), os.stat / the file system (histories use a logical clock set with os.utime), open(), the template parsers (a parse is "content -> template or TemplateSyntaxError"), threading.RLock (depth counter only)',
     'the reads in/len/iter are checked to leave the structure untouched at every reached state instead of being enumerated inside sequences',
+    'string-level path model (Genshi/Model/LoaderPath.lean): posixpath normpath/join/dirname/isabs are modelled on character lists and compared with the standard library on seeded strings (stream path-functions); prefixed() and callables returning (filepath, filename, fileobj, uptodate) are model entries; package() is a callable with uptodate=None; the in-place rewrite of a file that is being read is driven by shadowing the name open in the loader module for one call (RealRun.load_rewrite) and lands between the time stamp and the first read',
 ]
 ASSUMPTIONS = [
+    'path model: POSIX path syntax; every directory named on a path exists and there are no symbolic links, so that open(p) and getmtime(p) look at normpath(p) (generator and validate() keep every directory chain inside the tree of existing directories)',
     'operations of the overridden interface only (__getitem__ __setitem__ __contains__ __len__ __iter__); the inherited dict methods are known finding C15-inherited-dict',
     'capacity is a non-negative int and is not changed after construction',
     'every modification of a file changes its mtime: to the next value of a logical clock (W, T) or to any value, older ones included, that differs from the file\'s current mtime and from every mtime the loader remembers for that file (WA; a different content under a remembered mtime is the inherent limit of reloading by modification time, theorem mtime_reuse_serves_stale); a modification during a load is a replacement (new file renamed over the name) of the file the load opens, landing before or right after the open() of directory() (history op LR); in-place rewrites of a file that is being read are not covered',
@@ -576,6 +579,214 @@ def prefixed_shard(arg):
     return res
 
 
+# --------------------------------------------------------------------------
+# the loader over string-level path names (lean/Genshi/Model/LoaderPath.lean)
+
+def path_history(cfg, ops, root):
+    """one history on the real loader: (oracle failure | None, [expected model answer per op], stats).
+    Oracle = the property text with the standard library's posixpath (gen_loaderpath.Ref): a load
+    that is not answered from the cache ends as the walk over the search path of that call says;
+    a cached key is answered with the cached object (without auto_reload, or while its own
+    up-to-date check says so)."""
+    import posixpath
+    from harness import gen_loaderpath as P
+    P.validate(cfg, ops)
+    run = P.RealRun(cfg, root)
+    ref = P.Ref(cfg)
+    answers, stats = [], collections.Counter()
+    fail = None
+    case = {'kind': 'pathhist', 'cfg': cfg, 'ops': ops}
+
+    def bad(i, what, expected, observed):
+        return {'case': case, 'what': 'op %d %s: %s' % (i, json.dumps(ops[i]), what), 'expected': expected, 'observed': observed}
+    try:
+        for i, op in enumerate(ops):
+            if op[0] not in ('L', 'LW'):
+                run.fs_op(op)
+                ref.fs_op(op)
+                answers.append(Atom('U'))
+                continue
+            key = ref.key(op)
+            realkey = run.real(key) if posixpath.isabs(key) else key
+            cache = run.loader._cache
+            cached = cache._dict[realkey].value if realkey in cache._dict else None
+            current = False
+            if cached is not None and cfg['auto_reload']:
+                try:
+                    u = run.loader._uptodate[realkey]
+                    current = u is not None and bool(u())
+                except (KeyError, OSError):
+                    current = False
+            from_cache = cached is not None and (not cfg['auto_reload'] or current)
+            walk = ref.walk(op)
+            walk0 = walk          # the specification column of the model describes the state before the call
+            target = None
+            if op[0] == 'LW' and not from_cache and walk[0] == 'file':
+                # the file this load opens is rewritten in place while it is read: afterwards (and
+                # for the template class) it has the new content
+                target = posixpath.normpath(walk[1])
+                ref.fs_op(['W', target, op[7], op[8]])
+                walk = ref.walk(op)
+                stats['pathload:rewritten in place while read'] += 1
+            isabs = posixpath.isabs(key) or bool(op[2] and posixpath.isabs(op[2]))
+            n_inst, n_cb = len(run.inst_log), len(run.cb_log)
+            utd_before = dict(run.loader._uptodate)
+            map_before = dict((k, id(v.value)) for k, v in cache._dict.items())
+            if op[0] == 'LW':
+                kind, val, rewritten = run.load_rewrite(op)
+                if fail is None and (None if rewritten is None else run.model(os.path.normpath(rewritten))) != target:
+                    fail = bad(i, 'harness: the file rewritten during the load is the file found first on the search path',
+                               target, rewritten and run.model(rewritten))
+            else:
+                kind, val = run.load(op)
+            d = run.describe(val) if kind == 'ok' else None
+            stats['pathload:' + ('cached' if from_cache else walk[0])] += 1
+            if '..' in key.split('/'):
+                stats['pathload:key with leading ..'] += 1
+            if key.count('/') >= 2 and not posixpath.isabs(key):
+                stats['pathload:relative key two or more levels deep'] += 1
+            if posixpath.normpath(op[1]) != op[1]:
+                stats['pathload:filename not normalised'] += 1
+            if op[2] and posixpath.isabs(op[2]):
+                stats['pathload:absolute relative_to'] += 1
+            if walk[0] == 'file' and walk[2] != key:
+                stats['pathload:load function reports another filename'] += 1
+            if fail is None:
+                if from_cache:
+                    if kind != 'ok' or val is not cached:
+                        fail = bad(i, 'a cached key is answered with the cached object', 'the cached template', [kind, d or val])
+                    elif len(run.inst_log) != n_inst or len(run.cb_log) != n_cb:
+                        fail = bad(i, 'nothing parsed, no callback when served from the cache', [n_inst, n_cb], [len(run.inst_log), len(run.cb_log)])
+                else:
+                    if walk[0] == 'nopath':
+                        exp = ['err', 'TemplateError']
+                    elif walk[0] == 'nothing':
+                        exp = ['err', 'TemplateNotFound']
+                    elif walk[0] == 'raised':
+                        exp = ['err', 'LoadFuncError']
+                    elif walk[4]:
+                        exp = ['err', 'TemplateSyntaxError']
+                    elif cfg['callback'] and op[5]:
+                        exp = ['err', 'CallbackError']
+                    else:
+                        exp = ['ok', walk[1], walk[1] if isabs else walk[2], walk[3]]
+                    obs = ['ok', d[1], d[2], d[3]] if kind == 'ok' else ['err', val]
+                    if obs != exp:
+                        fail = bad(i, 'a load returns a template parsed from the file found first on the search path (current content)', exp, obs)
+                    elif kind == 'ok' and d[0] != n_inst:
+                        fail = bad(i, 'a parsed template is a new object', n_inst, d[0])
+                if fail is None and kind == 'err':
+                    map_after = dict((k, id(v.value)) for k, v in cache._dict.items())
+                    if map_after != map_before or dict(run.loader._uptodate) != utd_before:
+                        fail = bad(i, 'a failed load leaves the cache and _uptodate as they were', sorted(map_before), sorted(map_after))
+                if fail is None and (run.lock_depth() != 0 or len(run.loader.search_path) != run.npath):
+                    fail = bad(i, 'lock free and configured search path unchanged after the call', [0, run.npath],
+                               [run.lock_depth(), len(run.loader.search_path)])
+                if fail is None and len(cache._dict) > cfg['cap']:
+                    fail = bad(i, 'cache within its bound', cfg['cap'], len(cache._dict))
+            # the real loader in the vocabulary of Driver/C15Path.lean
+            res = [Atom('ok'), d] if kind == 'ok' else [Atom('err'), Atom(val)]
+            if from_cache:
+                spec = Atom('cached')
+            elif walk0[0] == 'file':
+                spec = [Atom('file'), walk0[1], walk0[2], walk0[3], B(walk0[4])]
+            else:
+                spec = Atom(walk0[0])
+            answers.append([res, key, run.cache_order(), len(run.cb_log), len(run.inst_log), run.lock_depth(),
+                            run.utd(realkey), spec] + ([N if target is None else target] if op[0] == 'LW' else []))
+    finally:
+        run.close()
+    return fail, answers, stats
+
+
+def path_shard(arg):
+    seed, shard, n = arg
+    from harness import gen_loaderpath as P
+    res = Result()
+    root = os.path.join(proto.ROOT, '.build', 'c15p-%d' % os.getpid())
+    batch = []
+    for k in range(n):
+        rng = random.Random('%s/%d/%d/C15-path' % (seed, shard, k))
+        cfg, ops = P.gen_history(rng)
+        res.evaluations += 1
+        fail, answers, stats = path_history(cfg, ops, root)
+        for kk, v in stats.items():
+            res.count(kk, v)
+        for e in cfg['path']:
+            res.count('pathload:entry ' + e[0])
+        if stats:
+            res.nontrivial.add('path:%s/%d/%d' % (seed, shard, k))
+        if len(res.samples) < 2:
+            res.samples.append({'cfg': cfg, 'ops': ops[:6]})
+        if fail:
+            res.failures.append(fail)
+            if len(res.failures) >= 3:
+                break
+        else:
+            batch.append((cfg, ops, answers))
+    path_compare(batch, res, 'path-histories')
+    return res
+
+
+def path_compare(batch, res, stream):
+    from harness import gen_loaderpath as P
+    lines = []
+    for cfg, ops, _ in batch:
+        path, wops = P.wire_history(cfg, ops)
+        lines.append(proto.line(Atom('C15'), Atom('phist'), cfg['cap'], B(cfg['auto_reload']), B(cfg['callback']), path, wops))
+    for (cfg, ops, answers), ans in zip(batch, proto.run_lines(lines)):
+        res.streams[stream] = res.streams.get(stream, 0) + 1
+        exp = proto.enc(answers)
+        if ans != exp:
+            # first differing load, for the report
+            try:
+                got = proto.dec(ans)
+                want = proto.dec(exp)
+                j = next((i for i, (a, b) in enumerate(zip(got, want)) if a != b), None)
+                detail = {'op': j, 'model': proto.enc(got[j])[:600], 'real': proto.enc(want[j])[:600]} if j is not None else {}
+            except Exception:  # noqa
+                detail = {}
+            res.disagreements.append({'stream': stream, 'case': {'kind': 'pathhist', 'cfg': cfg, 'ops': ops},
+                                      'model': json.dumps(detail) if detail else ans[:800], 'real': exp[:800]})
+
+
+def path_functions_shard(arg):
+    """`normpath` / `dirname` / `isabs` / `join` of the model against posixpath on seeded strings
+    over the alphabet the path names are made of"""
+    import posixpath
+    seed, n = arg
+    res = Result()
+    rng = random.Random('%s/C15-pathfns' % seed)
+    strs = []
+    parts = ['', '', '.', '..', '..', 'a', 'sub', 'deep', 't0.html', 'R', '...', 'a.b']
+    for _ in range(n):
+        k = rng.randrange(0, 7)
+        s = '/'.join(rng.choice(parts) for _ in range(k))
+        if rng.random() < 0.4:
+            s = rng.choice(['/', '//', '///', '/./', '/../']) + s
+        if rng.random() < 0.15:
+            s += rng.choice(['/', '//', '/.'])
+        strs.append(s)
+    ans = proto.run_lines([proto.line(Atom('C15'), Atom('ppath'), strs)])[0]
+    exp = []
+    for i, s in enumerate(strs):
+        nxt = strs[i + 1] if i + 1 < len(strs) else s
+        exp.append([posixpath.normpath(s), posixpath.dirname(s), B(posixpath.isabs(s)), posixpath.join(s, nxt)])
+    res.evaluations += len(strs)
+    res.streams['path-functions'] = len(strs)
+    res.count('pathfns:strings', len(strs))
+    res.count('pathfns:with ..', sum(1 for s in strs if '..' in s.split('/')))
+    if ans != proto.enc(exp):
+        try:
+            got = proto.dec(ans)
+            j = next(i for i, (a, b) in enumerate(zip(got, proto.dec(proto.enc(exp)))) if a != b)
+            res.disagreements.append({'stream': 'path-functions', 'case': {'kind': 'selfcheck', 'string': strs[j], 'next': strs[j + 1] if j + 1 < len(strs) else strs[j]},
+                                      'model': proto.enc(got[j]), 'real': proto.enc(exp[j])})
+        except Exception:  # noqa
+            res.disagreements.append({'stream': 'path-functions', 'case': {'kind': 'selfcheck'}, 'model': ans[:500], 'real': proto.enc(exp)[:500]})
+    return res
+
+
 def corpus_shard(_):
     """corpus/C15/*.json: inputs that once exposed something; oracle + both models, run first"""
     import glob
@@ -654,6 +865,10 @@ def run(ctx):
         res.merge(r)
     for r in pmap('harness.props.c15', 'prefixed_shard', [(ctx.seed, ctx.n(150, 1500))]):
         res.merge(r)
+    for r in pmap('harness.props.c15', 'path_shard', [(ctx.seed, i, ctx.n(60, 600)) for i in range(8)]):
+        res.merge(r)
+    for r in pmap('harness.props.c15', 'path_functions_shard', [(ctx.seed, ctx.n(2000, 20000))]):
+        res.merge(r)
     t3 = time.time()
     res.notes.append('wall: lru-exhaustive %.1fs, lru-random %.1fs, loader histories %.1fs' % (t1 - t0, t2 - t1, t3 - t2))
     res.rule = ('container: every sequence over get/set x 3 keys of length <= %d (capacity 2; min(%d-1, 7) for capacities 0, 1 and 3; sequences starting with a miss on the empty cache are represented by their tail) followed by all reads, '
@@ -683,6 +898,10 @@ def replay(ctx, case):
     if kind == 'lru-inherited':
         return inherited_case(case)
     if kind == 'prefixed':
+        if not case['path']:
+            # shrinking empties the search path: then the expected outcome is TemplateError, not
+            # what the reference of this stream (which walks a non-empty path) says
+            raise ValueError('not a search path')
         for e in case['path']:
             if not (isinstance(e, list) and len(e) == 2 and e[0] in ('D', 'P') and e[1] in range(3)):
                 raise ValueError('not a search path')
@@ -690,6 +909,10 @@ def replay(ctx, case):
             if not (isinstance(op, list) and ((op[0] == 'W' and len(op) == 5) or (op[0] == 'L' and len(op) == 3))):
                 raise ValueError('not a history')
         return prefixed_case(case, os.path.join(proto.ROOT, '.build', 'c15-replay-prefixed-%d' % os.getpid()))
+    if kind == 'pathhist':
+        return path_history(case['cfg'], case['ops'], os.path.join(proto.ROOT, '.build', 'c15p-replay-%d' % os.getpid()))[0]
+    if kind == 'selfcheck':
+        return None
     if kind == 'hist':
         root = os.path.join(proto.ROOT, '.build', 'c15-replay-%d' % os.getpid())
         return run_history(case['cfg'], case['ops'], case.get('strict', True), root, want_answers=False)[0]
